@@ -94,7 +94,7 @@ PROPS = {
     "C01": dict(
         module="Evl.Props.C01",
         theorems=["Evl.C01.order", "Evl.C01.unstarted_empty", "Evl.C01.complete", "Evl.C01.selection", "Evl.C01.selection_once",
-                  "Evl.C01.stopIndex_eq"],
+                  "Evl.C01.stopIndex_eq", "Evl.C03.on_source"],
         runs=[DISPATCH_RUN, REGISTRY_RUN], oracle_prefixes=["C01"], models=["M2 Dispatch", "M1 Registry"],
         trusted_base=TB_COMMON, assumptions=DISPATCH_ASSUME + M1_ASSUME + ["the identity of the event handed from node k to node k+1 is checked by the harness oracle on the implementation, not carried by the Lean model"],
         rule=DISPATCH_RULE + " || " + M1_RULE,
@@ -102,14 +102,14 @@ PROPS = {
     "C02": dict(
         module="Evl.Props.C02",
         theorems=["Evl.C02.sound", "Evl.C02.sinks_sublist", "Evl.C02.complete", "Evl.C02.error_iff", "Evl.C02.threshold_negative",
-                  "Evl.C02.threshold_readback", "Evl.C02.thresholdSinks_readback"],
+                  "Evl.C02.threshold_readback", "Evl.C02.thresholdSinks_readback", "Evl.C02.getError_on_source"],
         runs=[DISPATCH_RUN, REGISTRY_RUN], oracle_prefixes=["C02"], models=["M2 Dispatch", "M1 Registry"],
         trusted_base=TB_COMMON, assumptions=DISPATCH_ASSUME + M1_ASSUME, rule=DISPATCH_RULE + " || " + M1_RULE,
     ),
     "C03": dict(
         module="Evl.Props.C03",
         theorems=["Evl.C03.progress", "Evl.C03.prompt", "Evl.C03.measure_decreases", "Evl.C03.terminates", "Evl.C03.clean",
-                  "Evl.C03.no_send_on_closed", "Evl.C03.closed_is_final", "Evl.C03.done_matches_add", "Evl.C03.add_is_safe"],
+                  "Evl.C03.no_send_on_closed", "Evl.C03.closed_is_final", "Evl.C03.done_matches_add", "Evl.C03.add_is_safe", "Evl.C03.on_source"],
         runs=[DISPATCH_RUN], oracle_prefixes=["C03"], models=["M2 Dispatch"],
         trusted_base=TB_COMMON,
         assumptions=DISPATCH_ASSUME + ["partial: wall-clock promptness is measured by the harness (Send must return within 0.5 s of a cancel while nodes are held) but not part of any theorem; `prompt` is an enabledness statement"],
